@@ -710,6 +710,9 @@ func (ex *Exec) rangeStmt(st *State, s *ast.RangeStmt, c *ctl, k func(*State)) {
 					ex.writeVar(st3, keyObj, key)
 				}
 				st3.extra["$key"] = key
+				st3.extra[fmt.Sprintf("$key%d", ord)] = key
+				// visible to invariants of loops nested in this one
+				st3.extra[fmt.Sprintf("$visited%d", ord)] = visited
 				if valObj != nil {
 					ex.writeVar(st3, valObj, Val{T: app("select", app("m-val", m.T), key.T), S: m.S.Elem, GoT: u.Elem()})
 				}
